@@ -6,6 +6,9 @@ from ..gen import progs
 
 ASSUMPTIONS = ["programs are generated from the operator/kind/value-class table of harness/gen/progs.py; "
                "the direct oracle evaluates A*B-C mod p for every constraint recorded by the real backend",
+               "hash gadgets (poseidon permute / poseidon_hash / ggh_hash) traced under every zkinterface-family backend (own prime each) on PrivVal / "
+               "PubVal / boolean / fixed-point inputs, outside and inside a taken guard: every recorded constraint evaluated on the recorded witness "
+               "(props/c20.py hash_gadget_completeness; direct oracle only, the gadget values are model-compared by C20)",
                "guarded regions whose conditions are all true with ordering comparisons / check_positive (default and explicit width) whose "
                "internal difference has exactly bitlength, bitlength+1, bitlength+2 bits or is -2^bitlength "
                "(gen/progs.py wide_compare_guarded_case): nothing checks a constraint under a guard, so a run that goes on must have "
@@ -77,10 +80,19 @@ def explore(ctx, extended=False, focus=None):
                                            {"case": r.case.line(), "unsat": r.unsat, "backend": r.case.meta.get("backend", "snarkjs")}))
         if len(ex.samples) < 6 and r.cons:
             ex.samples.append(r.case.line())
+    # the hash gadgets (poseidon permute/hash, ggh) traced under every zkinterface-family backend, own prime each: every recorded
+    # constraint on the recorded witness (scenario class owned by props/c20.py)
+    from . import c20
+    hv = c20.hash_gadget_completeness(ctx, extended)
+    ex.violations += hv
+    ex.count("hash-gadget-completeness-violations" if hv else "hash-gadget-completeness-clean")
     return ex
 
 
 def replay(ctx, payload):
+    if payload.get("replay", {}).get("kind") == "completeness":
+        from . import c20
+        return c20.replay(ctx, payload)
     from ..gen.progs import Case
     line = payload["replay"]["case"]
     out = common.run_workers([line], payload["replay"].get("backend", "snarkjs"))
